@@ -216,3 +216,14 @@ def compare(derived: ast.expr, accepted: Sequence[str]) -> Tuple[Optional[bool],
     if best is not None and not best:
         return True, ""
     return None, "expression has a different shape from every accepted spelling"
+
+
+def best_substitutions(derived: ast.expr, accepted: Sequence[str]) -> Optional[List[Tuple[str, str, str]]]:
+    """The shortest list of (path, derived token, specified token) over the accepted spellings (None: shapes differ)."""
+    d = canon(derived)
+    best = None
+    for text in accepted:
+        diff = shape_diff(d, canon(parse(text)))
+        if diff is not None and (best is None or len(diff) < len(best)):
+            best = diff
+    return best
